@@ -41,6 +41,30 @@ func (r *Run) decision(sym string) (Decision, bool) {
 			return d, true
 		}
 	}
+	// a type assertion question "A:<value>:<kind>" is also answered by a type switch over that value
+	// ("K:<value>:<kind>,<kind>,..."): yes (0) when the switch took that kind's arm, no (1) when the kind was listed and
+	// another arm (or none) was taken
+	if strings.HasPrefix(sym, "A:") {
+		if i := strings.LastIndex(sym, ":"); i > 2 {
+			val, kind := sym[2:i], sym[i+1:]
+			for _, pre := range []string{"K:" + val + ":", "K:" + tieRe.ReplaceAllString(val, "[*]") + ":"} {
+				for _, d := range r.Decisions {
+					if !strings.HasPrefix(d.Sym, pre) {
+						continue
+					}
+					ks := strings.Split(strings.TrimPrefix(d.Sym, pre), ",")
+					for j, k := range ks {
+						if k == kind {
+							if d.Choice == j {
+								return Decision{Sym: sym, Choice: 0, N: 2, Fn: d.Fn}, true
+							}
+							return Decision{Sym: sym, Choice: 1, N: 2, Fn: d.Fn}, true
+						}
+					}
+				}
+			}
+		}
+	}
 	return Decision{}, false
 }
 
